@@ -70,6 +70,10 @@ def items(tier: str, seed: int) -> List[dict]:
     sp = scen.mk_spec([scen.board(seed + 63, 'open1C', D4[(seed + 3) % 4], 'NS'), scen.board(seed + 64, 'passout', 'E', 'None')])
     sp['existing_output'] = old_log
     its.append(dict(spec=sp, d=0))
+    # 4e. two table managers (two Server objects with their own clients, ports and output files) alive in one process
+    ta = scen.mk_spec([scen.board(seed + 65, 'doubled', D4[(seed + 2) % 4], 'Both')])
+    ta['second_table'] = scen.mk_spec([scen.board(seed + 66, 'third', D4[(seed + 3) % 4], 'NS'), scen.board(seed + 67, 'passout', 'W', 'EW')], teams={'NS': 'Gamma', 'EW': 'Delta'})
+    its.append(dict(spec=ta, d=0, priority=True))
     # 5. schedules
     p1 = scen.mk_spec([scen.board(seed, 'passout', D4[seed % 4], V4[seed % 4])])
     q1 = scen.mk_spec([scen.board(seed + 1, 'doubled', D4[(seed + 1) % 4], V4[(seed + 1) % 4], policy='lowest_held')])
